@@ -301,7 +301,7 @@ impl Sched {
                 (Class::Gate, kind, json!({"ch": ch, "item": item}))
             }
             "send.end" => (Class::Gate, kind, json!({"ch": ch, "ok": n})),
-            "loop.wait" | "clear.begin" | "ntf.snap" | "stop.join" | "stop.pool" | "stop.drain" => {
+            "loop.wait" | "clear.begin" | "ntf.snap" | "stop.join" | "stop.pool" | "stop.drain" | "stop.closed" => {
                 (Class::Gate, kind, json!(0))
             }
             "loop.end" => (Class::Final, kind, json!(0)),
